@@ -69,7 +69,7 @@ def close(g, want, rel=1e-9):
         w = float(want)
     else:
         w = want
-    return abs(g - w) <= rel * max(1.0, abs(g), abs(w))
+    return abs(g - w) <= rel * max(abs(g), abs(w)) + 1e-12 * (1.0 if max(abs(g), abs(w)) >= 1e-3 else max(abs(g), abs(w)) * 1e3)
 
 
 # ---------------------------------------------------------------- generators
@@ -80,8 +80,13 @@ def number_list(positive=False, max_size=40):
     decim = st.tuples(st.integers(1 if positive else -100000, 100000), st.just(100)).map(lambda t: t[0] / 100.0)
     small = st.integers(1 if positive else -5, 5)
     elem = st.one_of(ints, dyadic, decim, small, small)
+    big = st.integers(10 ** 8, 10 ** 9) if positive else st.one_of(st.integers(10 ** 8, 10 ** 9), st.integers(-10 ** 9, -10 ** 8))
+    bigf = st.integers(10 ** 10, 10 ** 11).map(lambda k: k / 1024.0)
+    tiny = st.integers(1, 10 ** 6).map(lambda k: k / 1e15)
     homog = st.one_of(st.lists(ints, min_size=1, max_size=max_size), st.lists(dyadic, min_size=1, max_size=max_size),
-                      st.lists(small, min_size=1, max_size=max_size), st.lists(elem, min_size=1, max_size=max_size))
+                      st.lists(small, min_size=1, max_size=max_size), st.lists(elem, min_size=1, max_size=max_size),
+                      # magnitudes far from 1: intermediate products / sums of squares leave the comfortable range although the statistic itself is ordinary
+                      st.lists(big, min_size=20, max_size=max_size), st.lists(bigf, min_size=20, max_size=max_size), st.lists(tiny, min_size=20, max_size=max_size))
     return homog
 
 
@@ -195,8 +200,8 @@ def check_stats(case):
         want = reference(name, items)
         if want is None:
             continue        # sample forms of a single item / means of non-positive items: not defined by the statement
-        if name == 'PRODUCT' and abs(want) > F(10) ** 300:
-            continue
+        if name == 'PRODUCT' and (abs(want) > F(10) ** 300 or (want != 0 and abs(want) < F(1, 10 ** 300))) and any(isinstance(x, float) for x in items):
+            continue        # the product itself is outside the double range
         for r, dd in ((r1, d), (r2, '%s over the permuted/regrouped %r' % (name, case['perm_args']))):
             g = r['result']
             if r['error'] is not None or not close(g, want):
@@ -231,6 +236,8 @@ def stats_classes(c):
         out.append('groups>=2')
     if 'range' in c['how']:
         out.append('range')
+    if items and (min(abs(x) for x in items) >= 10 ** 7 or max(abs(x) for x in items) < 1e-6) and len(items) >= 20:
+        out.append('extreme-magnitude')
     return out
 
 
@@ -357,6 +364,15 @@ def criteria_case(draw):
     values = draw(st.lists(st.one_of(st.integers(-50, 50), st.integers(-200, 200).map(lambda k: k / 4.0)), min_size=n, max_size=n))
     npairs = draw(st.integers(1, 3))
     pairs = [list(draw(crit_and_range(n))) for _ in range(npairs)]
+    if draw(st.integers(0, 4)) == 0 and pairs[0][0][0] in ('text', 'wild') and len(pairs) < 3:
+        # a second criterion that differs from the first in blanks only, over cells that differ in blanks only
+        c0, cells0 = pairs[0]
+        txt = c0[1]
+        i = draw(st.integers(0, len(txt)))
+        variant = (txt[:i] + ' ' + txt[i:]) if ' ' not in txt else txt.replace(' ', '', 1)
+        if variant and variant[0] not in '<>=' and variant.strip():
+            cells1 = [(c[:1] + ' ' + c[1:]) if k % 2 else c.replace(' ', '') or c for k, c in enumerate(cells0)]
+            pairs.append([[c0[0], variant], cells1])
     return {'values': values, 'pairs': pairs, 'how': draw(st.sampled_from(['var', 'lit', 'range']))}
 
 
@@ -458,7 +474,7 @@ def check_errors(case):
 LAWS = [
     Law('statistics', check_stats, strategy=stats_case(), classes=stats_classes, nontrivial=stats_nontrivial, key=stats_key,
         quick=2400, thorough=40000, shards=(16, 16),
-        required=('len>=3', 'negative', 'fraction', 'duplicate', 'nested', 'groups>=2', 'range'),
+        required=('len>=3', 'negative', 'fraction', 'duplicate', 'nested', 'groups>=2', 'range', 'extreme-magnitude'),
         rule='list of 1-40 numbers, a partition into arguments (scalars, flat arrays, nested arrays; variables / literals / ranges) and a permuted second partition: '
              '19 statistics equal their exact definitions on both, MODE returns a most frequent item, LARGE(array,k) is the k-th largest of the flattened array; '
              'non-trivial = length >= 3 with a negative, fractional or duplicate item'),
